@@ -237,7 +237,7 @@ def classify(crate):
     """classify every storage writer; returns list of Writer"""
     out = []
     for b in crate.bodies:
-        if storage.is_new_private_helper(b):
+        if storage.judged_through_callers(b):
             # a helper that did not exist on the reviewed tree is judged where it is used: its events are spliced into
             # every caller (storage._inline_helper), which is where the length it must truncate to is known
             continue
@@ -814,6 +814,28 @@ def check_k1(crate, b, evs, writes, aggs, dstores, lens, masks):
                     problems.append("the truncation %s clears only the word holding bit len, but every word is written through an iterator"
                                     % ms[0].detail)
                     break
+        # fresh storage: the single-word truncation is enough only if the storage has exactly cap(len) words or no write
+        # can reach a word above the top one (every loop variable in a write index is bounded by a length-derived count)
+        if ms and all(m.form in ("b1", "b3") for m in ms) and obj[0] == "var" and len(obj) > 2 and ms[0].L is not None \
+                and not _exact_fit(crate, b, obj, ms[0].L):
+            init = b.init_expr(obj[2])
+            alloc = vec_alloc_len(init) if init is not None else None
+            if alloc is not None:       # allocation size known and different from cap(len)
+                for w in ws:
+                    if getattr(w, "is_mask", False) or _and_only(w) or w.index is None:
+                        continue
+                    ivs = [x for x in walk(w.index) if isinstance(x, tuple) and x[:1] == ("iv",) and len(x) == 2]
+                    unbounded = []
+                    for iv in ivs:
+                        src = b.iter_source(iv[1])
+                        hi = src[3][1] if src[0] == "agg" and src[1].startswith("Range") and len(src[3]) == 2 else src
+                        if not mir.contains(hi, lambda x: is_call(x, "capacity_from_bit_len") or is_call(x, "int_len")):
+                            unbounded.append(show(src)[:60])
+                    if unbounded:
+                        problems.append("the storage `%s` is allocated with %s words (not cap(len)) and written in loops over %s, but the "
+                                        "truncation %s clears only the word holding bit len: words above it keep what was written"
+                                        % (show(obj), show(alloc[1])[:50], unbounded, ms[0].detail))
+                        break
         for loc in wl:
             ok, bad = b.must_pass_to_return(loc, [m.loc for m in ms])
             if not ok:
@@ -826,6 +848,12 @@ def check_k1(crate, b, evs, writes, aggs, dstores, lens, masks):
     if not objs and not problems:
         problems.append("writer of unrecognised shape")
     if problems:
+        if storage.is_new_private_helper(b) and all("are not followed by any truncation" in p for p in problems):
+            # a self-contained helper introduced after the review that builds a vector without any truncation at all:
+            # whether its writes stay below the length is a value-level question (e.g. a right shift of canonical words)
+            # that no table entry vouches for - not decided. (A truncation that exists on one path and is bypassed on
+            # another is a contradiction and stays a violation.)
+            return Writer(b, "UNCLASSIFIED", None, "; ".join(problems) + " - new helper, no table entry: not decided")
         return Writer(b, "UNCLASSIFIED", False, "; ".join(problems))
     return Writer(b, "K1", True, "; ".join(detail))
 
@@ -897,6 +925,21 @@ def shrink_rule(crate):
             for sb, cond, taken, succ, other in _dom_edges(b, l.loc[0]):
                 if taken and is_bin(cond, "Lt") and cond[2] == v and cond[3] == cur:
                     multiword = True   # `if new < len`: may drop any number of whole words
+            if not multiword:
+                # the store may sit after the join of a `match new.cmp(&len)` / if-else: it is still reached from the
+                # shrinking arm, whose words above the new top word must have been zeroed
+                from . import guard as _guard
+                shrink_succ = []
+                for sb, cond, ts, fs in _guard.cond_edges(b):
+                    for taken, succ in ((True, ts), (False, fs)):
+                        if any(op == "Lt" and x == v and y == cur for op, x, y in _guard.relations_on_edge(cond, taken)):
+                            shrink_succ.append(succ)
+                for sb, arms in _guard.discr_edges(b):
+                    for succ, rel in arms:
+                        if any(op == "Lt" and x == v and y == cur for op, x, y in _guard.relations_on_edge(rel, True)):
+                            shrink_succ.append(succ)
+                if any(l.loc[0] in b.reach_avoiding([s2]) for s2 in shrink_succ):
+                    multiword = True
             zero_ok = not multiword
             if multiword:
                 for w in evs:
@@ -904,6 +947,11 @@ def shrink_rule(crate):
                     if w.kind == "write" and w.obj == l.obj and w.how == "call:fill" and w.value and (
                             w.value[0] == ("int", 0) or (w.value[0][0] == "assoc" and w.value[0][1] == "ZERO")):
                         for x in walk(w.target):
+                            if is_call(x, "new") and "RangeInclusive" in (x[2] or "") and len(x[3]) == 2:
+                                lo, hi = x[3]
+                                lo_ok = lo == ("bin", "Add", ("bin", "Div", v, _bu_like(lo)), ("int", 1)) or lo == ("bin", "Div", v, _bu_like(lo))
+                                if lo_ok and is_bin(hi, "Div") and hi[2] == ("bin", "Sub", cur, ("int", 1)) and is_bu(hi[3]):
+                                    zero_ok = True      # ..=(len - 1) / BU is the last used word
                             if isinstance(x, tuple) and x[:2] == ("agg", "Range") and len(x[3]) == 2:
                                 lo, hi = x[3]
                                 lo_ok = lo == ("bin", "Add", ("bin", "Div", v, _bu_like(lo)), ("int", 1)) or lo == ("bin", "Div", v, _bu_like(lo))
@@ -996,7 +1044,7 @@ def used_words(crate):
     for b in crate.bodies:
         if b.self_family != "Bvd" and not (b.kind == "Closure" and "dynamic::" in b.path):
             continue
-        if storage.is_new_private_helper(b):
+        if storage.judged_through_callers(b):
             continue        # judged through its callers, where its bounds are concrete
         evs = storage.events(b)
         writes = [e for e in evs if e.kind == "write"]
